@@ -122,9 +122,9 @@ def stateful_funs(p):
     return sf
 
 
-def expr_stateful(e, sf):
+def expr_stateful(e, sf, count_self=True):
     for s in subexprs(e):
-        if s[0] in ('self', 'mem', 'delay'): return True
+        if s[0] in ('mem', 'delay') or (count_self and s[0] == 'self'): return True
         if s[0] == 'call' and s[1] in sf: return True
     return False
 
@@ -134,7 +134,7 @@ def has_stateful_arm(p):
     sf = stateful_funs(p)
     for _, b in all_bodies(p):
         for s in subexprs(b):
-            if s[0] == 'if' and (expr_stateful(s[2], sf) or expr_stateful(s[3], sf)):
+            if s[0] == 'if' and (expr_stateful(s[2], sf, False) or expr_stateful(s[3], sf, False)):
                 return True
     return False
 
@@ -182,6 +182,7 @@ class Gen:
         self.allow_mul = allow_mul
         self.inputs = inputs
         self.next_id = 10
+        self.cur_delay = None
 
     def fresh(self):
         self.next_id += 1
@@ -219,7 +220,7 @@ class Gen:
         if c < 17:
             return ('mem', self.expr(depth - 1, vars_, funs, in_fun))
         if c < 19:
-            n = r.choice([1, 2, 3, 4, 6])
+            n = self.cur_delay if (self.cur_delay and not r.chance(1, 10)) else r.choice([1, 2, 3, 4, 6])
             t = ('lit', r.range(-1, n + 1)) if r.chance(3, 4) else self.expr(1, vars_, funs, in_fun, True)
             return ('delay', n, self.expr(depth - 1, vars_, funs, in_fun), t)
         if in_fun:
@@ -247,6 +248,7 @@ class Gen:
         sf = set()
         for _ in range(r.below(self.max_funs + 1)):
             name = self.fresh()
+            self.cur_delay = r.choice([1, 2, 3, 4, 6])
             ps = [self.fresh() for _ in range(r.below(3))]
             body = self.body(r.range(1, self.depth), ps, funs, True)
             fdefs.append((name, ps, body))
@@ -255,12 +257,20 @@ class Gen:
             funs.append((name, len(ps), st))
         inputs = [self.fresh()] if (self.inputs and r.chance(1, 3)) else []
         vars_ = list(inputs)
+        self.cur_delay = r.choice([1, 2, 3, 4, 6])
         lets = []
         for _ in range(r.below(3)):
             x = self.fresh()
             lets.append((x, self.expr(r.range(1, self.depth), vars_, funs, False)))
             vars_.append(x)
         outs = [self.expr(r.range(1, self.depth), vars_, funs, False) for _ in range(r.choice([1, 1, 2, 2, 3]))]
+        if len(outs) >= 2 and not r.chance(1, 10):
+            # an `if` inside a tuple literal is finding F13: bind such outputs with a let first (most of the time)
+            for i, o in enumerate(outs):
+                if any(s_[0] == 'if' for s_ in subexprs(o)):
+                    x = self.fresh()
+                    lets.append((x, o))
+                    outs[i] = ('var', x)
         return {"funs": fdefs, "inputs": inputs, "lets": lets, "outs": outs}
 
 
@@ -286,44 +296,74 @@ def run_model(exe, cases):
     return [json.loads(l) for l in out]
 
 
+def _run_batch(exe, todo, timeout):
+    text = "\n".join(json.dumps(r) for r in todo) + "\n"
+    try:
+        pr = subprocess.run([exe], input=text, stdout=subprocess.PIPE, stderr=subprocess.DEVNULL, text=True,
+                            timeout=timeout, env={**os.environ, "RUST_LOG": "off"})
+        out, rc = pr.stdout, pr.returncode
+    except subprocess.TimeoutExpired as ex:
+        out = ex.stdout.decode(errors="replace") if isinstance(ex.stdout, bytes) else (ex.stdout or "")
+        rc = "timeout"
+    res = []
+    for l in out.split("\n"):
+        if not l.strip():
+            continue
+        try:
+            res.append(json.loads(l))
+        except ValueError:
+            pass
+    return res, rc
+
+
 def run_impl(exe, reqs, timeout_per_batch=600, shards=None):
-    """reqs: list of dict requests for lmmm_run (each gets an 'id' = index). Supervised: a crash/abort/timeout of the
-    harness process is attributed to the first unanswered request ({'crash': rc}). Runs in parallel shards."""
+    """reqs: list of dict requests for the harness (each gets an 'id' = index). Supervised: when the harness process
+    dies (abort, memory corruption, timeout) before answering everything, the first unanswered request is re-run ALONE in a
+    fresh process: if it dies again it is the culprit ({'crash': rc}); if it survives alone, the corruption came from an
+    earlier request of the same process, so every request that process had answered is re-run alone as well and the ones that
+    die or answer differently are marked ({'crash': rc} / 'unstable': True)."""
     import concurrent.futures
     for i, r in enumerate(reqs):
         r['id'] = i
-    shards = shards or min(NPROC, max(1, len(reqs) // 8))
-    chunks = [reqs[i::shards] for i in range(shards)]
     results = [None] * len(reqs)
+    iso = [r for r in reqs if r.get('isolate')]
+    reqs_shared = [r for r in reqs if not r.get('isolate')]
+    shards = shards or min(NPROC, max(1, len(reqs_shared) // 8))
+    chunks = [reqs_shared[i::shards] for i in range(shards)]
+
+    def alone(r):
+        res, rc = _run_batch(exe, [r], min(120, timeout_per_batch))
+        if res:
+            return res[0]
+        return {"id": r['id'], "crash": rc}
 
     def work(chunk):
         todo = list(chunk)
         while todo:
-            text = "\n".join(json.dumps(r) for r in todo) + "\n"
-            try:
-                pr = subprocess.run([exe], input=text, stdout=subprocess.PIPE, stderr=subprocess.DEVNULL, text=True,
-                                    timeout=timeout_per_batch, env={**os.environ, "RUST_LOG": "off"})
-                out, rc = pr.stdout, pr.returncode
-            except subprocess.TimeoutExpired as ex:
-                out = ex.stdout.decode(errors="replace") if isinstance(ex.stdout, bytes) else (ex.stdout or "")
-                rc = "timeout"
-            answered = 0
-            for l in out.split("\n"):
-                if not l.strip():
-                    continue
-                try:
-                    o = json.loads(l)
-                except ValueError:
-                    continue
+            res, rc = _run_batch(exe, todo, timeout_per_batch)
+            for o in res:
                 results[o['id']] = o
-                answered += 1
-            if answered >= len(todo):
+            if len(res) >= len(todo):
                 break
-            bad = todo[answered]
-            results[bad['id']] = {"id": bad['id'], "crash": rc}
-            todo = todo[answered + 1:]
+            bad = todo[len(res)]
+            a = alone(bad)
+            results[bad['id']] = a
+            if 'crash' not in a:
+                # corruption came from an earlier request in this process: re-run those alone
+                for r in todo[:len(res)]:
+                    b = alone(r)
+                    if 'crash' in b:
+                        results[r['id']] = b
+                    elif json.dumps(b, sort_keys=True) != json.dumps(results[r['id']], sort_keys=True):
+                        b['unstable'] = True
+                        results[r['id']] = b
+            todo = todo[len(res) + 1:]
     with concurrent.futures.ThreadPoolExecutor(max_workers=shards) as ex:
         list(ex.map(work, chunks))
+    if iso:
+        with concurrent.futures.ThreadPoolExecutor(max_workers=NPROC) as ex:
+            for r, a in zip(iso, ex.map(alone, iso)):
+                results[r['id']] = a
     return results
 
 
@@ -385,3 +425,132 @@ def decode_words(words, skel):
                 return None
             res.append(int(f))
     return res
+
+
+# ---------------------------------------------------------------------------
+# one exploration = generated programs run on the extracted model and on the real VM + WASM runtimes
+# ---------------------------------------------------------------------------
+OCAML = [("lmmm_drv", ["lmmm_model"], "ocaml/lmmm_drv.ml")]
+HARNESS = [("lang", ["lmmm_run"], True)]
+EXTRACT_TARGET = "theories/Extract/LmmmExtract.vo"
+
+
+def build_sides(ck):
+    """build the extracted model driver and the Rust harness; returns (model_exe|None, impl_exe|None)"""
+    rc, out, dt = coq_make([EXTRACT_TARGET])
+    mexe = None
+    if rc == 0:
+        rc, out, mexe = ocaml_build("lmmm_drv", ["lmmm_model"], os.path.join(VERIF, "ocaml", "lmmm_drv.ml"))
+        if rc != 0:
+            mexe = None
+    if mexe is None:
+        ck.broken.append("model-build(Lmmm): " + out[-400:])
+    rc, out, bindir = cargo_build("lang", ["lmmm_run"], hooks=True)
+    if rc != 0:
+        ck.broken.append("harness-build: " + out[-800:])
+        return mexe, None
+    return mexe, os.path.join(bindir, "lmmm_run")
+
+
+def classes_of(p):
+    c = set()
+    if has_stateful_arm(p): c.add("F2")
+    if multi_delay_sizes(p): c.add("F3")
+    if if_in_tuple(p): c.add("F13")
+    return c
+
+
+def gen_cases(ck, n_cases, n_samples, tag="gen", stateful_arms_share=8):
+    """list of (prog, rows); one case in `stateful_arms_share` allows stateful constructs in `if` arms (class F2)"""
+    cases = []
+    for i in range(n_cases):
+        r = ck.rng.fork((tag, i))
+        g = Gen(r, stateful_arms=(stateful_arms_share and i % stateful_arms_share == stateful_arms_share - 1),
+                max_funs=r.choice([1, 2, 3, 4, 5]), depth=r.choice([2, 3, 3, 4, 4, 5]))
+        p = g.program()
+        rows = gen_inputs(r.fork("in"), n_samples, len(p['inputs']))
+        cases.append((p, rows))
+    return cases
+
+
+def load_corpus(name):
+    """corpus/<name>/*.json: {"prog": <python AST as json>, "rows": [[..]]}"""
+    d = os.path.join(VERIF, "corpus", name)
+    out = []
+    if os.path.isdir(d):
+        for fn in sorted(os.listdir(d)):
+            if fn.endswith(".json"):
+                j = json.load(open(os.path.join(d, fn)))
+                out.append((unjson(j["prog"]), j["rows"]))
+    return out
+
+
+def tojson(p):
+    return p
+
+
+def unjson(p):
+    def e(x):
+        if isinstance(x, list):
+            k = x[0]
+            if k == 'call':
+                return ('call', x[1], [e(a) for a in x[2]])
+            return tuple([k] + [e(a) if isinstance(a, list) else a for a in x[1:]])
+        return x
+    return {"funs": [(f[0], list(f[1]), e(f[2])) for f in p["funs"]], "inputs": list(p["inputs"]),
+            "lets": [(l[0], e(l[1])) for l in p["lets"]], "outs": [e(o) for o in p["outs"]]}
+
+
+def impl_requests(cases, extra=None):
+    reqs = []
+    n_iso = [0]
+    for p, rows in cases:
+        r = {"src": pp_prog(p), "n": len(rows)}
+        if p['inputs']:
+            r["inputs"] = [[float(v) for v in row] for row in rows]
+        if extra:
+            r.update(extra)
+        # class F3 is known to corrupt the VM's memory: keep it away from the shared VM process
+        # (the first few are run on the VM too, each alone in its own process)
+        if "F3" in classes_of(p):
+            if n_iso[0] < 12:
+                n_iso[0] += 1
+                r["isolate"] = True
+            else:
+                r["backends"] = ["wasm"]
+        reqs.append(r)
+    return reqs
+
+
+def sample_outs(b, t):
+    """decoded float outputs of backend answer b at sample t, or ('panic', msg)"""
+    s = b['samples'][t]
+    if 'panic' in s:
+        return ('panic', s['panic'])
+    return [bits_to_float(h) for h in s['out']]
+
+
+def events_hit_cells(skel, trace):
+    """the C05 predicate evaluated on a real VM trace: every access event (kind 0/1/2) hits exactly one cell of the
+    published skeleton, of the right kind and size, inside the storage; returns list of offending events"""
+    leaves, total = skel_leaves(skel)
+    at = {}
+    for (c, n, o, sz) in leaves:
+        at.setdefault(o, []).append((c, n, sz))
+    bad = []
+    for ev in trace:
+        k, pos, sz = ev[0], ev[1], ev[2]
+        ln = ev[3] if len(ev) > 3 else total
+        if k > 2:
+            continue
+        cells = at.get(pos, [])
+        ok = False
+        for (c, n, csz) in cells:
+            if k == 0 and c == 'E' and sz == csz: ok = True
+            if k == 1 and c in 'EM' and sz == csz: ok = True
+            if k == 2 and c == 'D' and sz == csz: ok = True
+        if pos + sz > ln or pos + sz > total:
+            ok = False
+        if not ok:
+            bad.append(ev)
+    return bad
